@@ -184,7 +184,7 @@ def check_c02(chk, rng):
     progs = []
     for i in range(n):
         p = P.random_program(rng, i + 1, max_nodes=6, horizon=rng.choice([5, 7, 9]),
-                             kinds=("delay", "delay", "pass", "acc", "sum2", "sample", "sumu"))
+                             kinds=("delay", "echo", "echo", "pass", "acc", "sum2", "sample", "sumu"))
         for nd in p["nodes"]:
             if nd["kind"] == "src" and rng.random() < 0.5:
                 nd["mode"] = "all"
@@ -263,53 +263,86 @@ def check_c06(chk, rng):
 
 
 def check_sharing(chk, rng):
-    """Equal (definition, inputs, scalars) may share one instance; anything differing, and every sink, stays distinct."""
-    scns, expect = [], []
-    for k in range(30 if chk.tier == "quick" else 300):
-        a, b = rng.randint(1, 3), rng.randint(1, 3)
-        same_in = rng.random() < 0.6
-        kind = rng.choice(["add", "delay"])
-        key = "k" if kind == "add" else "d"
-        lines = ["scn share%d" % k, "opt start=1 end=6", "graph root", "n 1 src script=1:1;2:4;4:2", "n 2 src script=1:3;3:1",
-                 "n 3 %s %s=%d in=1" % (kind, key, a), "n 4 %s %s=%d in=%d" % (kind, key, b, 1 if same_in else 2),
-                 "n 5 rec in=3", "n 6 rec in=4", "n 7 rec in=3", "endgraph", "run"]
+    """Equal (definition, inputs, scalars) may share one instance without changing any output; statements differing in
+    an input, a scalar, or in how an input is used (a passive usage), and every sink, must stay distinct.  The two
+    statements are wired with `sameas`, i.e. literally the same definition and the same scalar values; what differs is
+    chosen per scenario.  Whatever is shared, every recorder must see the stream Dataflow.tla specifies."""
+    progs, scns, kinds = [], [], []
+    variants = ["same", "diff-input", "diff-scalar", "passive-second", "passive-first", "dup-sink"]
+    for k in range(60 if chk.tier == "quick" else 600):
+        var = variants[k % len(variants)]
+        horizon = 6
+        s1 = P.gen_script(rng, horizon, maxlen=3)
+        s2 = P.gen_script(rng, horizon, maxlen=4, values=(10, 20, 30))
+        kind = rng.choice(["sum2", "sumu"]) if var.startswith("passive") else rng.choice(["add", "delay", "sum2"])
+        ka = rng.randint(1, 3)
+        kb = ka if var != "diff-scalar" else ka + 1
+        if var == "diff-scalar" and kind == "sum2":
+            kind = "add"
+        nodes = [P.node("src", script=s1), P.node("src", script=s2)]
+        two = kind in ("sum2", "sumu")
+        insA = [1, 2] if two else [1]
+        insB = ([1, 1] if two else [2]) if var == "diff-input" else list(insA)
+        nodes.append(P.node(kind, ins=insA, k=ka))          # 3
+        nodes.append(P.node(kind, ins=insB, k=kb))          # 4
+        nodes += [P.node("rec", ins=[3]), P.node("rec", ins=[4])]   # 5, 6
+        if var == "dup-sink":
+            nodes.append(P.node("rec", ins=[3]))            # 7: a second, identical sink
+        p = P.program(k + 1, nodes, start=1, end=horizon + 1)
+        # the specification of a passive usage: the consumer is not activated by that input
+        if var == "passive-second":
+            nodes[3]["kind"] = "sample2" if kind == "sum2" else "sampleu"
+        if var == "passive-first":
+            nodes[2]["kind"] = "sample2" if kind == "sum2" else "sampleu"
+        progs.append(p)
+        kinds.append(var)
+        script = lambda s: ";".join("%d:%d" % (t, v) for t, v in s)
+        par = ("k=%d" if kind == "add" else "d=%d") if kind in ("add", "delay") else ""
+        refA = ",".join(str(x) for x in insA)
+        refB = ",".join(str(x) for x in insB)
+        if var == "passive-second":
+            refB = "%d,p:%d" % (insB[0], insB[1])
+        if var == "passive-first":
+            refA = "%d,p:%d" % (insA[0], insA[1])
+        stA = "n 3 %s %s in=%s" % (kind, (par % ka) if par else "", refA)
+        stB = "n 4 %s %s in=%s%s" % (kind, (par % kb) if par else "", refB, "" if var == "diff-scalar" else " sameas=3")
+        lines = ["scn share%d-%s" % (k, var), "opt start=1 end=%d" % (horizon + 1), "graph root", "n 1 src script=" + script(s1),
+                 "n 2 src script=" + script(s2), stA, stB, "n 5 rec in=3", "n 6 rec in=4"]
+        if var == "dup-sink":
+            lines.append("n 7 rec in=3 sameas=5")
+        lines += ["endgraph", "run"]
+        if rng.random() < 0.5 and var != "dup-sink":   # the other statement first
+            lines[5], lines[6] = lines[6].replace(" sameas=3", ""), lines[5] + ("" if var == "diff-scalar" else " sameas=4")
         scns.append("\n".join(lines))
-        expect.append((a, b, same_in, kind))
+    preds, res = dfcheck.predict(progs, tag="c06share")
+    chk.add_tlc(res, "sharing")
     traces = hg.run_driver("engine", scns)
-    for scn, tr, (a, b, same_in, kind) in zip(scns, traces, expect):
+    for p, var, scn, tr in zip(progs, kinds, scns, traces):
         chk.count({"scn": scn})
         if isinstance(tr, dict):
             chk.violation("share:crash", "driver crashed", scn)
             continue
+        bad = [e for e in tr if e["e"] in ("wirefail", "harnessfail")]
+        if bad:
+            chk.violation("share:wiring", "sharing scenario could not be wired: %s" % bad[0].get("msg"), scn)
+            continue
         w, cyc, errs, ret = P.observed(tr)
-        names = [e["name"] for e in tr if e["e"] == "gnode"]
-        nrec = sum(1 for x in names if x == "v_rec")
-        if nrec != 3:
-            chk.violation("share:sink", "sink nodes were shared: %d recorder instances for 3 sink statements" % nrec, scn)
-        # the streams seen by the recorders are the specification's, whatever is shared
-        s1 = [(1, 1), (2, 4), (4, 2)]
-        s2 = [(1, 3), (3, 1)]
-        def f(src, p):
-            if kind == "add":
-                return [(t, v + p) for t, v in src]
-            out, pend = [], None
-            for t in range(1, 6):
-                if pend and pend[0] == t:
-                    out.append((t, pend[1]))
-                    pend = None
-                for tt, v in src:
-                    if tt == t:
-                        pend = (t + p, v)
-            return out
-        want5 = f(s1, a)
-        want6 = f(s1 if same_in else s2, b)
-        if w.get(5, []) != want5 or w.get(7, []) != want5 or w.get(6, []) != want6:
-            chk.violation("share:stream", "sharing changed an output: recorders saw %s / %s / %s, expected %s / %s / %s"
-                          % (w.get(5), w.get(6), w.get(7), want5, want6, want5), scn)
-        ncomp = sum(1 for x in names if x == "v_" + kind)
-        must_differ = not (same_in and a == b)
-        if must_differ and ncomp < 2:
-            chk.violation("share:merged", "nodes differing in input or scalar were merged into one instance", scn)
+        pw, _, _ = P.predicted(preds[p["id"]])
+        for rid, nid in ((5, 3), (6, 4)):
+            want = pw.get(rid, [])
+            got = w.get(rid, [])
+            if var == "dup-sink" and rid == 5:
+                want = sorted(want + pw.get(7, []))     # both sinks are wired with id 5: each must record every tick
+                got = sorted(got)
+            if got != want:
+                chk.violation("share:%s" % var,
+                              "statement %d (%s): its consumer must see %s (Dataflow.tla), saw %s - sharing / distinctness changed an output"
+                              % (nid, var, want, got), "# C06 sharing: %s\n%s\n" % (var, scn))
+                break
+        if var == "dup-sink":
+            nrec = sum(1 for e in tr if e["e"] == "gnode" and e["name"] == "v_rec")
+            if nrec != 3:
+                chk.violation("share:sink-merged", "sink nodes were shared: %d recorder instances for 3 sink statements" % nrec, scn)
     chk.notes["sharing_scenarios"] = len(scns)
 
 
@@ -534,7 +567,7 @@ def check_c13(chk, rng):
 def check_c09(chk, rng):
     n = 200 if chk.tier == "quick" else 3000
     fam = rand_family(rng, n, 1, chk, "rand", max_nodes=7, horizon=7,
-                      kinds=("pass", "add", "acc", "count", "delay", "delay", "sum2", "sumu", "sample"))
+                      kinds=("pass", "add", "acc", "count", "delay", "echo", "echo", "sum2", "sumu", "sample"))
     cases, groups = [], []
     for p, pred in fam:
         gs = P.candidate_groups(p)
